@@ -270,13 +270,19 @@ func GoNamed(name string, f func()) {
 		}
 		return
 	}
+	s.spawn(name, f)
+	s.point("go", 0, nil)
+}
+
+// spawn creates a thread without a scheduling point of the caller (usable from the scheduler itself,
+// e.g. for the function of an AfterFunc timer).
+func (s *sched) spawn(name string, f func()) {
 	parent := s.cur
 	t := s.newThread(name)
 	if s.hb != nil {
 		s.hb.fork(parent, t)
 	}
 	s.startThread(t, f)
-	s.point("go", 0, nil)
 }
 
 func (s *sched) fail(f *Failure) {
